@@ -172,14 +172,23 @@ def gen_random(rng, index):
     p_inop = rng.choice([0.0, 0.1, 0.3])
     steps = []
     n_objects = 0
+    # calendar switches inside a run (each operation names the calendar it is
+    # built for; the executor switches when the world is in another one)
+    modes = [mode]
+    if rng.random() < 0.35:
+        modes += rng.sample(model.SPELLINGS, rng.choice([1, 2]))
+    p_mode = rng.choice([0.05, 0.2])
+    cur_mode = mode
     for _ in range(nsteps):
         if rng.random() < p_pert:
             steps.append({"k": "pert", "act": gen_action(rng, nzones)})
             continue
-        op = gen_op(rng, mode, n_objects)
+        if len(modes) > 1 and rng.random() < p_mode:
+            cur_mode = rng.choice(modes)
+        op = gen_op(rng, cur_mode, n_objects)
         if op[0] in ("parser_new", "dto_new"):
             n_objects += 1
-        step = {"k": "op", "op": op}
+        step = {"k": "op", "op": op, "mode": cur_mode}
         if rng.random() < p_inop:
             step["inop"] = [[rng.randint(1, 6), gen_action(rng, nzones)]
                             for _ in range(rng.choice([1, 1, 2]))]
@@ -664,6 +673,15 @@ class Sim(object):
                 self.sig.append("p:" + step["act"][0])
                 continue
             op = step["op"]
+            want_mode = step.get("mode", trace["mode"])
+            if want_mode != self.mode:
+                with kernel.guarded():
+                    data.Calendar.default().set_mode(want_mode)
+                self.mode = want_mode
+                self.count("fault.calendar_switch")
+                self.sig.append("p:mode")
+                if model.BASE[want_mode] != "gregorian":
+                    self.count("probe.non_gregorian")
             before = self.facade.config()
             self.facade.begin_op(step.get("inop", ()))
             try:
@@ -776,10 +794,7 @@ def shrink_candidates(trace):
             t = dict(trace)
             t["steps"] = trace["steps"][:i] + [s] + trace["steps"][i + 1:]
             yield t
-    if trace["mode"] != "gregorian":
-        t = dict(trace)
-        t["mode"] = "gregorian"
-        yield t
+
     if trace["isdst"]:
         t = dict(trace)
         t["isdst"] = 0
